@@ -60,6 +60,8 @@ def run_case(case, chooser):
                 closed_server = True
                 break
             pool_before = ledger.pool_ports(rig.server)
+            attempts_before = dict(w.net.bind_attempts)
+            attempts_now = lambda port: w.net.bind_attempts.get(port, 0)     # noqa
             had_listener = None
             r = rig.ev(i, e)
             replies.append(r)
@@ -79,6 +81,19 @@ def run_case(case, chooser):
             # exhaustion => 421 ; free port and no faults => success
             if e in ("PASV", "EPSV") and r is not None and alive[i] is not None:
                 codes = [c for c, _ in r]
+                if codes[-1:] == ["421"] and pool_before is not None:
+                    # "exhaustion is answered with 421": a port that was in the pool and whose next bind would have
+                    # succeeded (nobody listens on it, the plan has no fault for that attempt) was there to be had
+                    def would_bind(port):
+                        if port in w.net.listeners:
+                            return False
+                        plan = w.net.bind_plan.get(port) or []
+                        n_att = attempts_before.get(port, 0)
+                        return not (n_att < len(plan) and plan[n_att] != "ok" and not str(plan[n_att]).startswith("slow:"))
+                    free = [p_ for p_ in pool_before if would_bind(p_) and attempts_now(p_) == attempts_before.get(p_, 0)]
+                    if free:
+                        problems.append({"kind": "421-although-a-configured-port-was-free-and-untried", "ports": free,
+                                         "pool_before": pool_before, "after": [i, e]})
                 if codes and codes[-1] in ("227", "229"):
                     port = rig.sessions[i].pasv_port
                     if port not in pool:
@@ -288,6 +303,14 @@ def build_items(tier):
                 b = 1 if name.endswith("race") else 0
                 items.append(("plan", {"name": name, "pool": ports, "n": n, "events": events, "plan": plan},
                               b, kinds_q, 3000))
+    # three attempts per port over three sessions one after the other: a port that was busy earlier (and carries a
+    # larger priority number since) is still tried before the session is told there is none
+    ports = PORTS[:2]
+    for combo in itertools.product(outcomes[:2], repeat=5):
+        plan = {str(ports[0]): list(combo[:3]), str(ports[1]): list(combo[3:])}
+        items.append(("plan", {"name": "plan-three-sessions", "pool": ports, "n": 3, "plan": plan,
+                               "events": [(0, "PASV"), (0, "QUIT"), (1, "PASV"), (1, "QUIT"), (2, "EPSV"), (2, "QUIT")]},
+                      0, kinds_q, 3000))
     # keyword arguments given to Server.start() (they are handed on to every passive listener as well)
     for kw in ({"reuse_address": True}, {"reuse_address": False}, {"reuse_port": True}, {"backlog": 7},
                {"reuse_address": True, "backlog": 3}):
